@@ -33,6 +33,11 @@ def parseEvents (arr : Array Json) : Except String (List EventH) := do
       | s => throw s!"unknown src {s}"
     | "tick" => out := out ++ [.tick]
     | "bump" => out := out ++ [.bump]
+    | "again" => out := out ++ [.again (← getNat e "p")]
+    | "trigger" =>
+      match getOpt e "p" with
+      | some pj => out := out ++ [.trigP (← pj.getNat?)]
+      | none => out := out ++ [.trigC]
     | "complete" =>
       let t ← getNat e "t"
       let k ← getNat e "k"
@@ -134,6 +139,19 @@ def eventLabels (c : Cfg) (e : Env) (sh : StH) : EventH → List String
      | .pending none => "complete:not-awaited-yet"
      | .done _ => "complete:already-done"
      | .cancelled => "complete:cancelled-future"]
+  | .again p =>
+    [if (sh.core.refs p).isSome then "again:while-linked" else "again:after-unlink"] ++
+    (if (sh.core.asyncRefs p).isSome then ["again:cancels-registered"] else []) ++
+    (if anyTask sh.core (fun u x => x.param = p && x.pc = .start) then ["again:earlier-task-of-same-function-not-started"] else [])
+  | .trigC =>
+    (match e.thook with
+     | some (b, _) =>
+       [if (sh.core.asyncRefs b).isSome then "trigger:watcher-assigns:cancels-registered"
+        else if (sh.core.refs b).isSome then "trigger:watcher-assigns:unlinks" else "trigger:watcher-assigns:not-linked"]
+     | none => ["trigger:no-watcher"])
+  | .trigP p =>
+    [if (sh.core.asyncRefs p).isSome then "trigger:linked-parameter:cancels-registered"
+     else if (sh.core.refs p).isSome then "trigger:linked-parameter:unlinks" else "trigger:plain-parameter"]
   | .bump =>
     let n := (bumpH sh).core.nTasks - sh.core.nTasks
     [if n = 0 then "bump:no-dependent-reference" else s!"bump:reschedules-{n}"] ++
@@ -151,6 +169,9 @@ def coreEvent : EventH → Option Event
   | .tick => some .tick
   | .complete t k v => some (.complete t k v)
   | .bump => none
+  | .again _ => none
+  | .trigC => none
+  | .trigP _ => none
 
 def handleParam (case impl : Json) : Except String Json := do
   let np ← getNat case "np"
@@ -163,7 +184,13 @@ def handleParam (case impl : Json) : Except String Json := do
       if a.size != 3 then throw "hook: [a, b, w] expected"
       pure (some (← a[0]!.getNat?, ← a[1]!.getNat?, ← a[2]!.getInt?))
     | none => pure none
-  let env : Env := { hook := hook, rej := fun v => decide (v < 0) }
+  let thook : Option (Nat × Int) ← match getOpt case "thook" with
+    | some hj => do
+      let a ← hj.getArr?
+      if a.size != 2 then throw "thook: [b, w] expected"
+      pure (some (← a[0]!.getNat?, ← a[1]!.getInt?))
+    | none => pure none
+  let env : Env := { hook := hook, rej := fun v => decide (v < 0), thook := thook }
   let evs ← parseEvents (← getArr case "events")
   -- model run
   let s0 := StH.init 0
@@ -199,20 +226,16 @@ def handleParam (case impl : Json) : Except String Json := do
 
 /-! ### expression pipelines -/
 
-def parseRxEvents (r0 : Int) (arr : Array Json) : Except String (List Rx.Event) := do
-  let mut table : Array Int := #[r0]
-  for e in arr do
-    if (← getStr e "e") == "set" then table := table.push (← getInt e "r")
+def parseRxEvents (arr : Array Json) : Except String (List Rx.Event) := do
   let mut out : List Rx.Event := []
   for e in arr do
     match ← getStr e "e" with
-    | "set" => out := out ++ [.set (← getInt e "r")]
+    | "set" => out := out ++ [.set]
     | "tick" => out := out ++ [.tick]
     | "complete" =>
       let t ← getNat e "t"
-      match table[t]? with
-      | some v => out := out ++ [.complete t v]
-      | none => throw s!"complete of unknown evaluation {t}"
+      let k := match getOpt e "k" with | some kj => kj.getNat?.toOption.getD 0 | none => 0
+      out := out ++ [.complete t k (futValue t k)]
     | s => throw s!"unknown event {s}"
   return out
 
@@ -227,21 +250,23 @@ def jRxObs (o : Rx.Obs) : Json := Json.mkObj [
   ("log", Json.arr (o.log.map toJson).toArray), ("calls", toJson o.calls)]
 
 def handleRx (case impl : Json) : Except String Json := do
-  let evs ← parseRxEvents (← getInt case "r0") (← getArr case "events")
+  let evs ← parseRxEvents (← getArr case "events")
+  -- awaitables per evaluation: 1 for a coroutine function, the number of yields for an async generator function
+  let nf := match getOpt case "nf" with | some j => j.getNat?.toOption.getD 1 | none => 1
   let s0 := Rx.St.init
   let (_, revObs, revBr, ok) := evs.foldl
     (fun (acc : Rx.St × List Rx.Obs × List String × Bool) ev =>
       let (s, l, br, ok) := acc
-      let s' := Rx.applyEvent s ev
-      (s', Rx.observe s' s.log.length :: l, (Rx.eventLabels s ev).reverse ++ br,
+      let s' := Rx.applyEvent nf s ev
+      (s', Rx.observe s' s.log.length :: l, (Rx.eventLabels nf s ev).reverse ++ br,
         ok && (ev != .tick || s'.ready.isEmpty)))
     (s0, [], [], true)
   if !ok then throw "rx model: a tick did not drain the ready queue (fuel)"
   let modelSteps := revObs.reverse
   let implSteps ← (← getArr impl "steps").toList.mapM parseRxObs
   if implSteps.length != evs.length then throw "impl: number of observations differs from the number of events"
-  let (nImpl, sImpl) := Rx.specHistory [] (evs.zip implSteps) 0
-  let (_, sModel) := Rx.specHistory [] (evs.zip modelSteps) 0
+  let (nImpl, sImpl) := Rx.specHistory nf [] (evs.zip implSteps) 0
+  let (_, sModel) := Rx.specHistory nf [] (evs.zip modelSteps) 0
   return Json.mkObj [
     ("model", Json.mkObj [("steps", Json.arr (modelSteps.map jRxObs).toArray), ("hazards", Json.arr #[])]),
     ("applicable", Json.bool true),
